@@ -164,4 +164,20 @@ CLAIMS["C19"] = {
     "technique": "Lean 4 proof (totality, crash-freedom of frame and primitives, error theorems) + fuzzed model-vs-code correspondence with crash oracle",
 }
 
+CLAIMS["C20"] = {
+    "text": "The model is a function of (machine, hooks, decoder answers) by construction - no clock, address, RNG or iteration order exists in it - and "
+            "the correspondence shows the implementation computes it. Lean proves the non-trivial half: the constructor's random register values "
+            "reach nothing defined by the explicit inputs: new_indep (only GPR/XMM contents depend on them), AgreeOff non-interference (reads "
+            "through any view of a written register agree; writes have equal outcomes and keep the agreement; 32/64-bit writes define their "
+            "register; effective addresses over written registers agree), full_write_erases (after writing all registers the files are equal). "
+            "Implementation side: every generated case (fuzzed single instructions with full state, program runs with limits/hooks/syscalls/"
+            "traces, and programs that only ever write the registers they use) is executed twice - in two processes, the second with a throw-away "
+            "machine in front of every case to shift RNG, hash seeds and allocator state - and every output line, including a hash of each "
+            "error text, renderer output, traces and counts, must be identical; both must equal the model.",
+    "design_ref": "DESIGN.md section 7, C20",
+    "note": COMMON_NOTE + "Pipe descriptor numbers (the stated exception) are excluded by not generating pipe syscalls here; C14 covers them with the numbers fed back. "
+            "Handler-level non-interference (an instruction reads only the registers it names) is proved for the operand layer and sampled for handler bodies.",
+    "technique": "Lean 4 proof (non-interference of unwritten registers over the register API and operand layer) + two-run implementation differential + model correspondence",
+}
+
 NOT_YET = {}
